@@ -42,6 +42,7 @@ func runC12(c *eng.Ctx) {
 	rt.SetNoise(100) // godi's internal yield points perturb the schedule of the concurrent Close groups
 	defer func() { rt.SetNoise(0); c.R.Count("internal_yield_points_passed", rt.YieldCount()) }()
 	runC12RootContext(c, next)
+	core.RunFuncDisposables(c, "C12", next)
 	nCases := c.Pick(120, 3000)
 	for k := 0; k < nCases; k++ {
 		idx, mine := next()
